@@ -31,13 +31,16 @@ COMPRESSORS = ["blosc", "zstd", "lz4", "bz2"]
 
 def src_chunks(n, gap=3):
     """Source layout `n`: n < 10 -> n chunks of three rows; 10 + n / 20 + n / 30 + n -> the same with the middle / first / last chunk
-    holding no rows (stored layouts with row-free chunks)."""
+    holding no rows (stored layouts with row-free chunks); 40 + n -> every chunk starts with a long row that encloses the two short rows
+    after it (the gap between the short rows is wide enough to cut at, but covered by the long row)."""
     variant, n = divmod(n, 10)
-    empty = {0: None, 1: n // 2, 2: 0, 3: n - 1}[variant]
+    empty = {0: None, 1: n // 2, 2: 0, 3: n - 1, 4: None}[variant]
     out = []
     t = 0
     for i in range(n):
         rows = [[t + 1, t + 2, 10 * i + 1], [t + 2 + gap, t + 3 + gap, 10 * i + 2], [t + 3 + gap, t + 5 + gap, 10 * i + 3]]
+        if variant == 4:
+            rows = [[t + 1, t + 5 + gap, 10 * i + 1], [t + 2, t + 3, 10 * i + 2], [t + 3 + gap, t + 4 + gap, 10 * i + 3]]
         out.append(dict(s=t, e=t + 6 + gap + (gap if i % 2 else 0), rows=[] if i == empty else rows))
         t = out[-1]["e"]
     return [dict(s=c["s"] * UNIT, e=c["e"] * UNIT, rows=[[r[0] * UNIT, r[1] * UNIT, r[2]] for r in c["rows"]]) for c in out]
@@ -435,6 +438,7 @@ def run(chk):
             work.append(("copy", (comp, rechunk, tr, n)))
             if comp in (None, "zstd"):
                 work.append(("copy", (comp, rechunk, tr, 10 + n)))
+                work.append(("copy", (comp, rechunk, tr, 40 + n)))
                 work.append(("copy", (comp, rechunk, tr, n, 1)))       # three frontends, copied to both others in one call
                 work.append(("copy", (comp, rechunk, tr, n, 2)))
     for comp in [None] + COMPRESSORS:
@@ -445,11 +449,12 @@ def run(chk):
                         continue
                     work.append(("rechunker", (comp, tr, par, replace, n)))
                     if comp in (None, "lz4") and par in (False, "thread"):
-                        for lay in (10 + n, 20 + n, 30 + n):
+                        for lay in (10 + n, 20 + n, 30 + n, 40 + n):
                             work.append(("rechunker", (comp, tr, par, replace, lay)))
     for sr in (1, 2, 4):
         for proc, mw in (("single_thread", None), ("threaded_mailbox", None), ("threaded_mailbox", 2)):
             work.append(("onload", (sr, proc, mw, n)))
+            work.append(("onload", (sr, proc, mw, 40 + n)))
     for g in contiguous_groupings(n if quick else 4):
         for proc in ("single_thread", "threaded_mailbox"):
             work.append(("perchunk", (g, proc, n if quick else 4)))
